@@ -54,6 +54,20 @@ class FS:
         self.dirs = set()
         self.trace = []            # (op, path, extra) ; after each effect a snapshot path -> content is kept
         self.snapshots = []
+        self.points = 0            # file-system operations started so far
+        self.interrupt_at = None   # raise KeyboardInterrupt right before operation number `interrupt_at`
+        self.interrupt_mid_write = False
+
+    def point(self, mid_write_hook=None):
+        """Called at the start of every mutating file-system operation: an interruption delivered as an exception
+        (Ctrl-C, SIGTERM handler, MemoryError) can arrive here; `finally` blocks and context managers then run."""
+        k = self.points
+        self.points += 1
+        if self.interrupt_at is not None and k == self.interrupt_at:
+            self.interrupt_at = None
+            if mid_write_hook is not None and self.interrupt_mid_write:
+                mid_write_hook()
+            raise KeyboardInterrupt()
 
     # dictionary-like access to contents (path -> Doc | Partial)
     class _View:
@@ -108,6 +122,7 @@ class Handle:
         self.fs, self.path, self.mode = fs, path, mode
         self.closed = False
         if "w" in mode:
+            fs.point()
             if path in fs._entries:
                 fs._entries[path].content = Partial([])       # truncation of the existing file body
             else:
@@ -123,6 +138,10 @@ class Handle:
             raise NotImplementedError(mode)
 
     def write(self, piece):
+        def half():
+            self.inode.content = Partial(self.inode.content.pieces + [("prefix-of", piece)])
+            self.fs.effect("write-partial", self.path)
+        self.fs.point(half)
         cur = self.inode.content
         self.inode.content = Partial(cur.pieces + [piece])
         self.fs.effect("write", self.path)
@@ -221,6 +240,7 @@ class SpecPath:
 
     def replace(self, target):
         t = str(target)
+        self.fs.point()
         self.fs.rename(self.p, t)
         self.fs.effect("replace", t, self.p)
         return SpecPath(self.fs, t)
@@ -247,6 +267,7 @@ class SpecOS:
 
     def replace(self, src, dst):
         s, d = str(src), str(dst)
+        self.fs.point()
         self.fs.rename(s, d)
         self.fs.effect("replace", d, s)
 
